@@ -116,7 +116,9 @@ def load_known() -> list[dict]:
     return json.loads(p.read_text()).get("findings", [])
 
 
-def run_check(pid: str, tier: str, seed: int, jobs: int, replay: str | None) -> int:
+def run_check(
+    pid: str, tier: str, seed: int, jobs: int, replay: str | None, evidence: bool = True
+) -> int:
     t0 = time.monotonic()
     mod = load_check(pid)
     if replay:
@@ -167,7 +169,7 @@ def run_check(pid: str, tier: str, seed: int, jobs: int, replay: str | None) -> 
     )
 
     wall = time.monotonic() - t0
-    if not replay:
+    if not replay and evidence:
         write_evidence(mod, pid, tier, seed, total, wall, len(real), hit_known, descs)
 
     for key, n in hit_known.items():
@@ -268,6 +270,7 @@ def main(argv: list[str] | None = None) -> int:
     ap.add_argument("--seed", type=int, default=int(os.environ.get("VERIF_SEED", "0")))
     ap.add_argument("--jobs", type=int, default=int(os.environ.get("VERIF_JOBS", "16")))
     ap.add_argument("--replay")
+    ap.add_argument("--no-evidence", action="store_true")
     a = ap.parse_args(argv)
     if a.tier not in ("quick", "thorough"):
         ap.error("tier must be quick or thorough")
@@ -288,11 +291,13 @@ def main(argv: list[str] | None = None) -> int:
             except ModuleNotFoundError:
                 continue
 
-            worst = max(worst, run_check(pid, a.tier, a.seed, a.jobs, None))
+            worst = max(worst, run_check(pid, a.tier, a.seed, a.jobs, None, not a.no_evidence))
 
         return worst
 
-    return run_check(a.property.upper(), a.tier, a.seed, a.jobs, a.replay)
+    return run_check(
+        a.property.upper(), a.tier, a.seed, a.jobs, a.replay, not a.no_evidence
+    )
 
 
 if __name__ == "__main__":
